@@ -109,6 +109,32 @@ def run(ctx):
             else:
                 H.violation("monkeytype.tracing:CallTracer.__call__", "scenario:%s:%s" % (name, observed), "scenario %s: traces differ from the faithful ones" % name,
                             {"scenario": name}, observed, [str(e) for e in expected])
+    # ---- short-lived code: unresolvable code objects that are freed, then new resolvable functions (address reuse must not confuse the tracer's cache)
+    rounds = 150
+    H.section("short-lived code", "rounds of: an anonymous lambda compiled, called in place and discarded (unresolvable: not logged), then a freshly exec'd module-level function called once: "
+              "that call is logged exactly once, attributed to that round's function", "%d rounds" % rounds)
+    col = Collector()
+    bad = []
+    snippet = lambda code: code.co_filename.startswith(("<c02-throwaway-", "<c02-plugin-"))
+    with trace_calls(col, 0, snippet):
+        for i in range(rounds):
+            ns = {}
+            exec(compile("result = (lambda v: v + %d)(%d)\n" % (i, i), "<c02-throwaway-%d>" % i, "exec"), ns)
+            del ns
+            ns2 = {}
+            exec(compile("def handler(v):\n    return v * %d\n" % i, "<c02-plugin-%d>" % i, "exec"), ns2)
+            handler = ns2["handler"]
+            before = len(col.traces)
+            handler(i)
+            new = col.traces[before:]
+            if not (len(new) == 1 and new[0].func is handler and new[0].arg_types == {"v": int} and new[0].return_type is int):
+                bad.append((i, [describe(t) for t in new]))
+            del handler, ns2
+    if bad:
+        H.violation("monkeytype.tracing:CallTracer._get_func", "short-lived-code:%d-of-%d" % (len(bad), rounds), "calls of freshly created resolvable functions are not logged exactly once after unresolvable code was freed",
+                    {"rounds": rounds}, bad[:4])
+    else:
+        H.ok("short-lived-code", sample={"rounds": rounds, "logged": len(col.traces)})
     return H.result()
 
 
